@@ -63,7 +63,15 @@ def make_case(rng, kind=None):
     else:
         gap = avail * float(rng.choice([0.01, 0.3, 3.0, 100.0]))
     E[t] = E[s] + gap
-    return dict(n=n, N=N, mass=mass, v=v, d=d, E=E, s=s, t=t, kind=str(kind), delta=delta, int_mass=bool(intm))
+    c = dict(n=n, N=N, mass=mass, v=v, d=d, E=E, s=s, t=t, kind=str(kind), delta=delta, int_mass=bool(intm))
+    if N >= 3 and rng.random() < 0.3:
+        # a FRUSTRATED attempt towards a third state, along another direction, on the same trajectory object right before the
+        # judged hop: nothing of it may survive into the next hop
+        others = [j for j in range(N) if j not in (s, t)]
+        pt = int(others[int(rng.integers(0, len(others)))])
+        E[pt] = E[s] + 1e3 * (abs(avail) + 1.0)
+        c["pre"] = dict(t=pt, d=rng.normal(size=n) * 10 ** rng.uniform(-1, 1))
+    return c
 
 
 def model_line(c):
@@ -111,6 +119,24 @@ def impl_hop(c, clsname):
     parent_before = None
     if clsname == "AugmentedFSSH":
         traj.delP[:, s, s] = d
+    pre = c.get("pre") if clsname != "EvenSamplingTrajectory" else None
+    npre = 0
+    if pre is not None:
+        pt, pd = int(pre["t"]), np.array(pre["d"], dtype=np.float64)
+        dc[s, pt, :] = pd
+        dc[pt, s, :] = -pd
+        if clsname == "AugmentedFSSH":
+            traj.delP[:, pt, pt] = d - pd             # direction of rescale = delP[s,s] - delP[pt,pt] = pd
+        v_before = np.array(traj.velocity)
+        traj.hop_to_it([{"target": pt, "weight": 1.0, "zeta": 0.2, "prob": 0.4}], elec)
+        pre_problem = None
+        if traj.state != s or not np.array_equal(traj.velocity, v_before):
+            # the gap of the preparatory attempt is 1000 x (kinetic energy + 1): it cannot be allowed
+            pre_problem = ("a hop attempt towards a state %.3g above, with kinetic energy %.3g in all, was not frustrated (state %d -> %d)"
+                           % (E[pt] - E[s], 0.5 * float(np.sum(mass * v * v)), s, traj.state))
+            traj.state = s
+            traj.velocity = np.array(v_before)
+        npre = 1
     if clsname == "EvenSamplingTrajectory":
         traj.spawn_stack.next_zeta(0.3, traj.random_state)      # crosses the first threshold (0.25)
         hop["stack"] = traj.spawn_stack.spawn(1.0)
@@ -125,8 +151,10 @@ def impl_hop(c, clsname):
                      and q.empty())
     tr = subject.tracer
     hops = list(tr.hops)
-    fr = list(tr.events.get("frustrated_hop", []))
-    return dict(state=int(subject.state), v=np.array(subject.velocity), hops=hops, frustrated=fr,
+    fr = list(tr.events.get("frustrated_hop", []))[npre:]          # (the preparatory frustrated attempt is not the judged one)
+    if pre is None:
+        pre_problem = None
+    return dict(pre_problem=pre_problem, state=int(subject.state), v=np.array(subject.velocity), hops=hops, frustrated=fr,
                 accepted=int(subject.state == t and len(hops) == 1), parent_ok=parent_ok,
                 time=3.5)
 
